@@ -59,6 +59,7 @@ bool OneshotAlarm::calculateNextLocalTimeSec(uint32_t curr_local_ts, uint32_t &n
 }
 
 void OneshotAlarm::onTimeExpired() {
+  last_fired_utc_sec_ = target_utc_sec_;
   state_ = State::kInited;
 
   ++cb_level_;
